@@ -23,7 +23,7 @@ NOT_DECIDED = [
     "whole-container round trips (Vec/BTreeMap/struct/enum through Any) — only per-step frames are proved (serializer side: sequences, tuples, single-entry maps, struct fields, newtype/tuple variants; deserializer side: sequences, map values)",
     "maps with more than one entry (std BTreeMap ordering is out of CBMC's reach); the deserializer side of maps (MapDeserializer over BTreeMap::into_iter: single-entry harnesses timed out at 300 s) — only the value half of an entry is proved",
     "JSON text parsing/printing (serde_json); Base64 decoding beyond the bound",
-    "enum views (deserialize_enum / EnumDeserializer / VariantDeserializer)",
+    "enum views through Any::deserialize_enum / EnumDeserializer / VariantDeserializer (every harness, even for a bare string, timed out: CBMC unrolls the recursive drop glue of Any); enum *map keys* are decided (C13.K.key.enum)",
 ]
 
 def _mod(which):
